@@ -24,8 +24,8 @@ RULE = ('family = one generated pipeline of lazy combinators (map, lazy filter, 
 PROBES = ['stopped_inside_stream', 'look_ahead_fully_used', 'behind_thread_prefetch',
           'index_access_into_batch', 'key_access']
 BUDGET = {
-    'quick': {'families': 1500, 'wall_cap': 240, 'shrink_s': 12},
-    'thorough': {'families': 50000, 'wall_cap': 3000, 'shrink_s': 30},
+    'quick': {'families': 7000, 'wall_cap': 420, 'shrink_s': 12},
+    'thorough': {'families': 70000, 'wall_cap': 5400, 'shrink_s': 30},
 }
 COMPONENTS = dict(parprops.COMPONENTS)
 ASSUMPTIONS = ['reading a source example is observed through the instrumented first map stage',
